@@ -202,6 +202,23 @@ def deregister(ctx, rule='C10.deregister'):
             res.append(ok(rule, 'the read-only edge of Drop reaches the registry removal at %s' % dr.loc(bb), sites=1))
         else:
             res.append(bad(rule, '%s | removal not reachable for read-only transactions' % dr.qual, 'the registry removal at %s is not reachable from the read-only edge of the writable test' % dr.loc(bb), where=dr.loc(bb)))
+    # ... and nothing but the outcome of the search for its own id lets a read-only transaction leave Drop without removing itself: an early return (`if thread::panicking()
+    # { return }`) leaves a phantom oldest reader behind, and no writer ever releases a page again
+    rblocks = {bb for bb, t in rem}
+    srch = {bb for bb, t, n, m in calls if n in ('binary_search', 'binary_search_by', 'binary_search_by_key', 'position', 'iter', 'contains')}
+    for (tb, tt, ft) in tests:
+        free = dr.reach_from([ft], avoid=rblocks)
+        rets = [b for b in free if dr.term(b)['k'] == 'return']
+        if not rets:
+            continue
+        # a return reached without the removal is fine only behind the search (its id was not found): every path to it passes a registry search
+        unsearched = dr.reach_from([ft], avoid=rblocks | srch)
+        early = [b for b in rets if b in unsearched]
+        if early:
+            res.append(bad(rule, '%s | a read-only transaction can be dropped without deregistering' % dr.qual,
+                           'from the read-only edge of the writable test, Drop can return (%s) without having looked for, let alone removed, its entry in the reader registry: the '
+                           'entry stays, later writers take it for the oldest open reader and release nothing, and the file grows with every commit' % dr.loc(early[0]),
+                           where=dr.loc(early[0])))
     return res
 
 
@@ -471,6 +488,8 @@ def run(ctx, tier):
     results += c03.release_sites(ctx, rule='C10.release-site')
     # pages of an older snapshot go to the pending set and nowhere else; the free set grows only by release
     results += c02.cow_free_set(ctx, rule='C10.cow.free-set')
+    from core import renamed
+    results += renamed(c02.cow_write_set(ctx), 'C02', 'C10')
     import profile
     results += profile.debug_pure(ctx, 'C10.debug-pure')
     return dict(
